@@ -332,6 +332,22 @@ Section Tpl.
         * apply ldrop1.
     - cbn. exists s, e_unknown_type. split; [reflexivity|discriminate].
   Qed.
+
+  (* no bound on the input length: a STRING whose 4-byte length field u (ANY value up to 2^32-1,
+     sign bit included) is followed by u bytes is accepted *)
+  Lemma tskip_string_any d s r : Rep s r -> 4 <= len r -> unbe (take 4 r) <= len (drop 4 r) ->
+    exists s', tskip skipN (S d) fu s T_STRING = (s', Ok tt) /\ Rep s' (drop (4 + unbe (take 4 r)) r).
+  Proof.
+    intros HR H4 Hu. cbn [tskip].
+    rewrite (tts_ok STpl T_STRING ltac:(unfold T_STRING; slia)). unfold sret at 1. cbn [sbind].
+    change (0 <? Z.of_N (fixed_width T_STRING))%Z with false.
+    change (is_ty T_STRING thrift_STRING) with true. cbv iota.
+    destruct (SN_ok s r 4 HR H4) as [s1 [E1 HR1]]. rewrite E1. cbn [sbind].
+    rewrite be_u32_take by exact H4. unfold sret at 1. cbn [sbind].
+    destruct (Z.ltb_spec (Z.of_N (unbe (take 4 r))) 0); [exfalso; slia|].
+    destruct (SN_ok s1 (drop 4 r) _ HR1 Hu) as [s2 [E2 HR2]]. rewrite E2. cbn [sbind].
+    exists s2. split; [reflexivity|]. rewrite drop_plus in HR2. exact HR2.
+  Qed.
 End Tpl.
 
 Lemma tsim_total {St} (Rep : St -> bytes -> Prop) x r i d t :
@@ -382,6 +398,19 @@ Proof. intros s r (_ & _ & -> & W). apply wf_drop, W. Qed.
 
 (* BytesSkipDecoder.Next on a fresh decoder over b (|b| < 2^31): accepts exactly when the
    reference does; returns exactly the first n bytes and keeps the rest *)
+Lemma bs_finish b t d s' n : n <= len b ->
+  tskip bs_skipN d (S (length b)) (bs_new b) t = (s', Ok tt) -> bs_rep b s' (drop n b) ->
+  bs_next_depth (bs_new b) t d = ({| bs_b := drop n b; bs_n := 0 |}, Ok (take n b)).
+Proof.
+  intros Hn E (Hb & Hle & Hr & _). unfold bs_next_depth. change (bs_b (bs_new b)) with b.
+  rewrite E. cbn [sbind]. rewrite Hb.
+  assert (Hnn : bs_n s' = n).
+  { apply (f_equal len) in Hr. rewrite !len_drop in Hr. lia. }
+  rewrite Hnn. unfold slice_range, slice_from, sret.
+  destruct (N.leb_spec 0 n); [|lia]. destruct (N.leb_spec n (len b)); [|lia]. cbn [andb bind sbind fst snd].
+  rewrite N.sub_0_r. reflexivity.
+Qed.
+
 Theorem bs_next_is_ref b t d : wf b -> t < 256 -> len b < two31 ->
   match rp inl_none d t b with
   | Ok (n, _) => bs_next_depth (bs_new b) t d = ({| bs_b := drop n b; bs_n := 0 |}, Ok (take n b))
@@ -389,21 +418,17 @@ Theorem bs_next_is_ref b t d : wf b -> t < 256 -> len b < two31 ->
   | _ => False
   end.
 Proof.
-  intros W Ht Hlen. unfold bs_next_depth. change (bs_b (bs_new b)) with b.
+  intros W Ht Hlen.
   assert (HR : bs_rep b (bs_new b) b).
   { unfold bs_rep, bs_new. cbn [bs_b bs_n]. repeat split; try assumption; try lia. }
   pose proof (tskip_sim bs_state bs_skipN (bs_rep b) (bs_SN_ok b) (bs_SN_fail b) (bs_rep_wf b)
                 (S (length b)) d (bs_new b) b t HR Ht ltac:(split; [lia|exact Hlen])) as T.
   pose proof (rp_good inl_none d t b) as G.
   unfold tsim in T. destruct (rp inl_none d t b) as [[n h]|e| |]; try contradiction.
-  - destruct T as [s' [E (Hb & Hn & Hr & _)]]. specialize (G n h eq_refl).
-    rewrite E. cbn [sbind]. rewrite Hb.
-    assert (Hnn : bs_n s' = n).
-    { apply (f_equal len) in Hr. rewrite !len_drop in Hr. lia. }
-    rewrite Hnn. unfold slice_range, slice_from, sret.
-    destruct (N.leb_spec 0 n); [|lia]. destruct (N.leb_spec n (len b)); [|lia]. cbn [andb bind sbind fst snd].
-    rewrite N.sub_0_r. reflexivity.
-  - destruct T as [s' [c [E Hc]]]. rewrite E. cbn [sbind]. exists s', c. auto.
+  - destruct T as [s' [E HR']]. specialize (G n h eq_refl).
+    eapply bs_finish; eauto. lia.
+  - destruct T as [s' [c [E Hc]]]. unfold bs_next_depth. change (bs_b (bs_new b)) with b.
+    rewrite E. cbn [sbind]. exists s', c. auto.
 Qed.
 
 Corollary bs_next_depth_accepts b t d n : wf b -> t < 256 -> len b < two31 ->
